@@ -44,6 +44,7 @@ pub struct Local {
     max_cutsets: u64,
     bom_exc: u64,
     raw_reads: u64,
+    long_piece_runs: u64,
 }
 
 fn first_min(input: &[u8]) -> usize {
@@ -365,6 +366,7 @@ fn run(ctx: &mut Ctx) {
         corpus_max_len: t.pick(16 << 10, 256 << 10),
         random_atoms: t.pick(100_000, 1_500_000),
         random_bytes: t.pick(100_000, 1_500_000),
+        scale_max: t.pick(1024, 8192),
         ..Plan::default()
     };
     for_each_input(ctx, &plan, &mut |ctx, input, src, r| {
@@ -414,6 +416,30 @@ fn run(ctx: &mut Ctx) {
                 }
             }
         }
+        // long pieces: whole pieces inside one value / text / comment
+        if input.len() > 40 {
+            let mut sets: Vec<Vec<usize>> = vec![crate::sources::big_random_cuts(r, input.len(), fmin)];
+            if src == Src::Scale {
+                for piece in crate::gen::SCALE_PIECES {
+                    if *piece < input.len() && !(tiny && *piece > 64) {
+                        sets.push(cuts_for_piece(input.len(), *piece, fmin));
+                    }
+                }
+                sets.push(crate::sources::big_random_cuts(r, input.len(), fmin));
+            }
+            for cuts in sets {
+                loc.long_piece_runs += 1;
+                if !run_case(ctx, &mut loc, input, &cfg, &cuts, None, &base, src) {
+                    return false;
+                }
+                if r.chance(1, 3) {
+                    let p = random_pending(r, cuts.len() + 1);
+                    if !run_case(ctx, &mut loc, input, &cfg, &cuts, Some(&p), &base, src) {
+                        return false;
+                    }
+                }
+            }
+        }
         for _ in 0..if big || tiny { 1 } else { 4 } {
             let cuts = random_cuts(r, input.len(), fmin);
             if !big {
@@ -438,6 +464,7 @@ fn run(ctx: &mut Ctx) {
     ctx.add("async_polls", loc.polls);
     ctx.add("async_runs", loc.async_runs);
     ctx.add("buffered_runs", loc.buffered_runs);
+    ctx.add("runs_with_pieces_of_8_to_8192_bytes", loc.long_piece_runs);
     ctx.add("exhaustive_cutset_inputs", loc.exh_inputs);
     ctx.add("raw_stream_reads", loc.raw_reads);
     ctx.max("max.cutsets_per_input", loc.max_cutsets);
